@@ -253,24 +253,27 @@ func runProve(po proveOpts) (res proveResult) {
 	os.MkdirAll(scratch, 0o755)
 	var jobs []*obJob
 	for _, v := range verifiers {
-		// feasibility of return paths is sampled (at most 4 per function): it only guards
-		// against a verification that is vacuous on every path
-		var paths []*Oblig
+		// feasibility of return paths is sampled per return statement (first and last path
+		// reaching it): it guards against a verification that is vacuous because the path
+		// condition of the paths through some return statement is contradictory
+		byPos := map[string][]*Oblig{}
 		for _, o := range v.obligs {
 			if o.Class == "vacuity-path" {
-				paths = append(paths, o)
+				byPos[o.Pos] = append(byPos[o.Pos], o)
 			}
 		}
-		if len(paths) > 4 {
-			keep := map[*Oblig]bool{paths[0]: true, paths[len(paths)-1]: true, paths[len(paths)/3]: true, paths[2*len(paths)/3]: true}
-			var kept []*Oblig
-			for _, o := range v.obligs {
-				if o.Class != "vacuity-path" || keep[o] {
-					kept = append(kept, o)
-				}
-			}
-			v.obligs = kept
+		keep := map[*Oblig]bool{}
+		for _, ps := range byPos {
+			keep[ps[0]] = true
+			keep[ps[len(ps)-1]] = true
 		}
+		var kept []*Oblig
+		for _, o := range v.obligs {
+			if o.Class != "vacuity-path" || keep[o] {
+				kept = append(kept, o)
+			}
+		}
+		v.obligs = kept
 		for _, o := range v.obligs {
 			jobs = append(jobs, &obJob{v: v, o: o, values: v.modelSymbolsOf(o)})
 		}
@@ -322,8 +325,37 @@ func runProve(po proveOpts) (res proveResult) {
 		}
 		fe["return_paths"] = npath
 		fe["return_paths_infeasible"] = npathUnsat
+		// return statements none of whose sampled paths is feasible
+		{
+			feas := map[string]bool{}
+			seen := map[string]bool{}
+			for _, o := range v.obligs {
+				if o.Class == "vacuity-path" {
+					seen[o.Pos] = true
+					if o.Verdict != "unsat" {
+						feas[o.Pos] = true
+					}
+				}
+			}
+			var deadRets []string
+			for p := range seen {
+				if !feas[p] {
+					deadRets = append(deadRets, p)
+				}
+			}
+			sort.Strings(deadRets)
+			if len(deadRets) > 0 {
+				fe["dead_return_statements"] = deadRets
+				if *verbose {
+					fmt.Printf("  NOTE %s: no feasible sampled path through return statement(s) %v\n", v.fnName, deadRets)
+				}
+			}
+		}
 		for _, o := range v.obligs {
 			if o.Class == "vacuity-path" {
+				if *verbose {
+					fmt.Printf("  %-8s %-7s %6dms %s  [%s] %s\n", o.Verdict, o.Solver, o.Ms, o.Name, o.Pos, o.Desc)
+				}
 				continue
 			}
 			if o.Class == "vacuity" {
